@@ -14,6 +14,11 @@ package shmipc
 //   process (connection severed with shutdown(2)) or a CHILD PROCESS (this test binary re-executed) that is SIGKILLed
 //   at the crash point.  No step comparison (the loop is free running), oracles only.
 //
+// Witnesses of the finding classes: raw manual schedules (settle after every step), one gate-staged interleaving inside
+// Session.Close (needs the build instrumented by tools/instr), and two that kill the process they run in and are therefore
+// executed in a child process (write into a BufferWriter after the teardown; Flush parked inside queue.put while the
+// teardown unmaps the queue).
+//
 // Oracles (VIOLATION): survivor not closed after the hang-up was handled; a pending call that does not return or returns
 // success; a later call that succeeds or returns (nil, nil); a stream without / with more than one close callback; Close
 // not idempotent; panic; a goroutine of the session still running; descriptor / mapping / file of the session left when
@@ -333,35 +338,35 @@ type lcChild struct {
 }
 
 type lcWorld struct {
-	sc       *lcSchedule
-	mode     string
-	tag      string
-	dir      string
-	sv, pr   *Session // survivor under test, in-process peer (nil with a child peer)
-	dS, dP   *epollDispatcher
-	svStr    []*Stream // index 0..n-1 = spec streams 1..n, index n = the stream of the parked fallback flush
-	prStr    []*Stream
-	isCb     []bool
-	cbs      []*lcCb
-	mu       sync.Mutex
-	calls    map[string]*lcCall
-	rdRes    []string
-	flRes    string
-	accRes   string
-	lastOpen string
-	lastSend string
-	inodes   map[uint64]bool
-	linkDown bool
-	hupSeen  bool
-	child    *lcChild
-	res      *lcSchedResult
-	known    map[string]bool
-	kf       map[string]bool
-	baseRef  int32
-	svPtr    string
-	prPtr    string
-	cbClosed bool
-	flStable int
+	sc        *lcSchedule
+	mode      string
+	tag       string
+	dir       string
+	sv, pr    *Session // survivor under test, in-process peer (nil with a child peer)
+	dS, dP    *epollDispatcher
+	svStr     []*Stream // index 0..n-1 = spec streams 1..n, index n = the stream of the parked fallback flush
+	prStr     []*Stream
+	isCb      []bool
+	cbs       []*lcCb
+	mu        sync.Mutex
+	calls     map[string]*lcCall
+	rdRes     []string
+	flRes     string
+	accRes    string
+	lastOpen  string
+	lastSend  string
+	inodes    map[uint64]bool
+	linkDown  bool
+	hupSeen   bool
+	child     *lcChild
+	res       *lcSchedResult
+	known     map[string]bool
+	kf        map[string]bool
+	baseRef   int32
+	svPtr     string
+	prPtr     string
+	cbClosed  bool
+	flStable  int
 	unflushed []bool // the user has written data into the stream's BufferWriter that no Flush has taken yet
 }
 
@@ -370,6 +375,19 @@ func (w *lcWorld) violate(kind, detail string, step int) {
 	w.mu.Lock()
 	w.res.Violations = append(w.res.Violations, v)
 	w.mu.Unlock()
+}
+
+// violations that do not belong to a known-finding class
+func (w *lcWorld) unclassified() int {
+	w.mu.Lock()
+	defer w.mu.Unlock()
+	n := 0
+	for _, v := range w.res.Violations {
+		if v.Known == "" {
+			n++
+		}
+	}
+	return n
 }
 
 func (w *lcWorld) goCall(name string, f func() string) *lcCall {
@@ -937,7 +955,7 @@ func (w *lcWorld) startSend(i int) {
 		if late && had {
 			w.mu.Lock()
 			w.res.Violations = append(w.res.Violations, lcViolation{Kind: "later-call-succeeds", Known: "flush-nil-after-close",
-				Detail: fmt.Sprintf("Flush of written data on stream %d, called after Session.IsClosed() returned true, returned nil", i+1),
+				Detail:   fmt.Sprintf("Flush of written data on stream %d, called after Session.IsClosed() returned true, returned nil", i+1),
 				Schedule: w.sc.Name, Step: -1})
 			w.mu.Unlock()
 		}
@@ -1123,7 +1141,7 @@ func (w *lcWorld) replayManual() {
 		if got := w.observe(); got.LastOpen == "nilnil" {
 			w.violate("open-nil-nil", "OpenStream on a session whose IsClosed() is true returned (nil, nil)", i)
 		}
-		if len(w.res.Violations) > 0 {
+		if w.unclassified() > 0 {
 			return
 		}
 		if idx < 0 {
@@ -1579,7 +1597,7 @@ func (w *lcWorld) replayReal() {
 		if w.observe().LastOpen == "nilnil" {
 			w.violate("open-nil-nil", "OpenStream on a session whose IsClosed() is true returned (nil, nil)", i)
 		}
-		if len(w.res.Violations) > 0 {
+		if w.unclassified() > 0 {
 			return
 		}
 	}
